@@ -317,7 +317,11 @@ def exits(rng):
         # remaining time to unwind from their cancellation: the run finished first and must not be timed out
         n, k = rng.choice([2, 3]), rng.choice([2, 3])
         timeout = rng.choice([2.0, 5.0])
-        bscript = [("on_cancel_sleep", 3 * timeout), ("gate", "w"), ("return", StopEvent)]
+        # (half of the cases: the StopEvent is returned a fraction of a second BEFORE the deadline by the first input, while
+        # its siblings are still working; the engine waits for them to unwind, and the deadline passes during that wait)
+        late = rng.choice([None, 0.125, 0.25, 0.375])
+        bscript = [("on_cancel_sleep", 3 * timeout), ("gate", "w")] + \
+            ([("sleep_first", timeout - late)] if late else []) + [("return", StopEvent)]
     elif mode == "timeout":
         timeout = rng.choice([2.0, 5.0])
     elif mode == "finally_publish":
